@@ -159,6 +159,13 @@ def parse_spec(path):
             sec = []
             cur_fn.proofs.append((m.group(1), m.group(2), int(m.group(3) or 0), sec, "proof!"))
             section = sec
+        elif s.startswith("%raw") and cur_fn is not None:
+            m = re.match(r'%raw\s+(before|after|start)(?:\s+"(.*)")?(?:\s+#(\d+))?\s*$', s)
+            if not m:
+                raise Undecided("bad %%raw at %s:%d" % (path, lineno))
+            sec = []
+            cur_fn.proofs.append((m.group(1), m.group(2), int(m.group(3) or 0), sec, None))
+            section = sec
         elif s.startswith("%ghost") and cur_fn is not None:
             m = re.match(r'%ghost\s+(before|after|start)(?:\s+"(.*)")?(?:\s+#(\d+))?\s*$', s)
             if not m:
@@ -511,7 +518,10 @@ def fn_inserts(u, m, d, it, info, used_fns, probe_fn):
                 info["clauses"].append({"file": fs.specfile, "fn": full, "spec_line": lineno, "text": t.strip(), "props": clause_props(t, fs.props), "where": "loop " + anchor})
     for where, anchor, occ, sec, mac in fs.proofs:
         first = sec[0][0] if sec else fs.line
-        ptxt = "\n" + mac + " {\n" + spec_lines_to_text(sec) + "\n}\n"
+        if mac is None:
+            ptxt = "\n\n" + spec_lines_to_text(sec) + "\n"
+        else:
+            ptxt = "\n" + mac + " {\n" + spec_lines_to_text(sec) + "\n}\n"
         if where == "start":
             pos = it["body_start"] + 1
         else:
